@@ -114,6 +114,27 @@ theorem treeIns_sorted {key : Nat} {e : Entry} {tr tr' : List (Nat × Entry)} (h
           · omega
           · exact hs.1 x a
 
+theorem treeIns_subset {key : Nat} {e : Entry} {tr tr' : List (Nat × Entry)} (h : treeIns key e tr = some tr') :
+    (∀ p ∈ tr, p ∈ tr') ∧ (key, e) ∈ tr' := by
+  induction tr generalizing tr' with
+  | nil => simp [treeIns] at h; subst h; simp
+  | cons a t ih =>
+    obtain ⟨k', e'⟩ := a
+    simp only [treeIns] at h
+    split at h
+    · simp at h; subst h; exact ⟨fun p hp => by simp [hp], by simp⟩
+    · split at h
+      · simp at h
+      · cases hr : treeIns key e t with
+        | none => simp [hr] at h
+        | some t' =>
+          simp [hr] at h; subst h
+          obtain ⟨a1, a2⟩ := ih hr
+          refine ⟨fun p hp => ?_, by simp [a2]⟩
+          rcases List.mem_cons.mp hp with hp | hp
+          · simp [hp]
+          · simp [a1 p hp]
+
 theorem treeFind_of_mem_sorted {tr : List (Nat × Entry)} (hs : TreeSorted tr) {k : Nat} {e : Entry} (h : (k, e) ∈ tr) :
     treeFind k tr = some e := by
   induction tr with
